@@ -1695,6 +1695,8 @@ example :
 
 /-! ### a step strictly inside the kept gap of a replace-around step: the guard (`gapGuard`, PM/CommuteGuard.lean)
 
+In-gap pairs are *overlapping* in the sense of property C17 (the partner's range lies inside `[from, to]`; only the
+touched tokens are disjoint), so nothing below is a violation of C17: this section extends the convergence theory to them.
 Without a guard the rebased steps need not apply (real code, harness counters `gap-pair:an-order-fails:<opA>/<opB>`,
 182 of 2973 in-gap pairs at seed 0).  The failing pairs are of two kinds, neither excused by C17-parent-retyped:
 * the inner step closes the node the gap lives in (a `split` of the re-typed textblock, a replace whose slice is open
@@ -1748,6 +1750,24 @@ example :
     gapGuard [.elem 3 [] [] [.elem 1 [] [] [.text [97] []], .elem 1 [] [] [.text [98] []]]] 1 7 5 5
       ⟨[.text [120] []], 0, 0⟩ = true := by
   simp [gapGuard, insideGap, depthAt]
+
+/-- **the guard cannot be dropped** (`gapGuard_needs`): the counterexample found in the bundled basic schema, replayed
+    on the real code.  `doc(h1("0\nyxz\n", br), hr)` (types here: 1 heading, 2 hard_break, 3 horizontal_rule);
+    `set_node_markup(0, heading, level 2)` = `replaceAround 0 9 1 8 <h2()> insert 1` (gap `[1, 8)` = the heading's
+    content) against `replace 7 7 <h1()|code_block("\n𝒳")|h1()>(1, 1)` (from `replace_with`: closes the heading, puts a
+    code block, re-opens a heading).  Real code: both steps apply to the base document; neither rebased step is dropped
+    (`replaceAround 0 16 1 15 …` resp. `replace 7 7 …`); replace-around first, then the rebased replace: applies;
+    replace first, then the rebased replace-around step: **fails** ("Gap is not a flat range": `[1, 15)` now contains
+    `</h1> <code_block> … </code_block> <h1>`).  Such a pair is *overlapping*, not separated, in the sense of property
+    C17 (and of the harness's search population): the partner's range lies inside `[from, to] = [0, 9]` of the
+    replace-around step — only its *touched tokens* `[0, 1)` and `[8, 9)` are disjoint from it.  So this is not a
+    violation of C17, it delimits the in-gap extension: the guard is false here because the slice is open as deep as
+    position 7 is nested (`depth 1 − openStart 1 = 0` levels of descent: the step rebuilds the document level). -/
+example :
+    gapGuard [.elem 1 [("level", "1")] [] [.text [48, 10, 121, 120, 122, 10] [], .leaf 2 [] []], .leaf 3 [] []]
+      1 8 7 7 ⟨[.elem 1 [("level", "1")] [] [], .elem 4 [] [] [.text [10, 55349, 56499] []],
+        .elem 1 [("level", "1")] [] []], 1, 1⟩ = false := by
+  simp [gapGuard, insideGap, depthAt, Node.size]
 
 /-- … and fails for a split of the paragraph whose markup is being changed (`set_node_markup` on `p("ab")`:
     gap `[1, 3)`, split at 2 with `</p><p>` = slice `<p()|p()>(1,1)`): the split closes the node the gap lives in -/
